@@ -37,6 +37,45 @@ class SubG(OptGraph):
     """a subclass of OptGraph that is nobody's domain class"""
 
 
+class JournalG(OptGraph):
+    """domain graph whose postprocess_nodes callback is a bound method of the graph itself"""
+
+    def __init__(self, nodes=()):
+        self.journal = []
+        super().__init__(nodes, postprocess_nodes=self._record)
+
+    def _record(self, graph, nodes):
+        self.journal.append(len(nodes))
+
+
+class Counter:
+    """a stateful callable used as postprocess_nodes"""
+
+    def __init__(self):
+        self.calls = 0
+
+    def __call__(self, graph, nodes):
+        self.calls += 1
+
+
+class CounterG(OptGraph):
+    def __init__(self, nodes=()):
+        self.counter = Counter()
+        super().__init__(nodes, postprocess_nodes=self.counter)
+
+
+def plain_post(graph, nodes):
+    return None
+
+
+class FunG(OptGraph):
+    def __init__(self, nodes=()):
+        super().__init__(nodes, postprocess_nodes=plain_post)
+
+
+DOMAIN_CLS = {True: MyG, 'journal': JournalG, 'counter': CounterG, 'fun': FunG}
+
+
 # ----------------------------------------------------------------------------------------
 # identities
 # ----------------------------------------------------------------------------------------
@@ -84,6 +123,8 @@ def number_nx(G, ids):
 
 def number_opt(g, ids):
     ids.new(g, getattr(g, 'operator', g), g.nodes)
+    if 'counter' in g.__dict__:
+        ids.new(g.counter)
     for nd in g.nodes:
         ids.new(nd, nd.content)
         number_value(nd.content.get('name'), ids)
@@ -135,10 +176,22 @@ def opt_coq(g, ids, pos=None, node_cls=MyN):
     return c_list([node_coq(nd, ids, pos, node_cls) for nd in g.nodes], 'onode')
 
 
-def cgraph_coq(g, ids, pos, graph_cls=MyG, node_cls=MyN):
+def post_coq(g, ids, kind, target=None):
+    """the postprocess_nodes callback; kind is known from how the graph was built; target: identity of the
+    object an edit of g writes to (default: the graph's own / its own counter)"""
+    if kind == 'journal':
+        return '(PostBound %s)' % c_nat(ids.of(g, g.operator, g.nodes) if target is None else target)
+    if kind == 'counter':
+        return '(PostObj %s)' % c_nat(ids.of(g.counter) if target is None else target)
+    if kind == 'fun':
+        return '(PostFun %s)' % c_nat(0)
+    return 'PostDefault'
+
+
+def cgraph_coq(g, ids, pos, graph_cls=MyG, node_cls=MyN, post='PostDefault'):
     cls = 0 if type(g) is OptGraph else (1 if type(g) is graph_cls else 2)
-    return '(mkC %s %s %s)' % (c_nat(ids.of(g, getattr(g, 'operator', g), g.nodes)), c_nat(cls),
-                               opt_coq(g, ids, pos, node_cls))
+    return '(mkC %s %s %s %s)' % (c_nat(ids.of(g, getattr(g, 'operator', g), g.nodes)), c_nat(cls), post,
+                                  opt_coq(g, ids, pos, node_cls))
 
 
 def key_coq(k, pos=None):
@@ -398,32 +451,80 @@ def dumb_pipeline(desc, ad=None):
     return '(%s, %s, %s)' % (g_c, Go_c, go_c), {'n': len(g.nodes)}
 
 
-DIRECT_TY = 'nat * nat * cgraph * cgraph'
-DIRECT_FN = 'fun c => match c with (gc, nc, x, y) => [agree_direct NF gc nc x y; holds_direct NF gc nc x y] end'
+DIRECT_TY = 'nat * nat * cgraph * cgraph * bool * bool'
+DIRECT_FN = ('fun c => match c with (gc, nc, x, y, i, o) => [agree_direct NF gc nc x y; '
+             'holds_direct_edits NF gc nc x y i o] end')
+
+
+def _state(g, ids, pos):
+    """every observable of a graph incl. what its callbacks write to"""
+    return (opt_coq(g, ids, pos), type(g).__name__, list(g.__dict__['journal']) if 'journal' in g.__dict__ else None,
+            g.counter.calls if 'counter' in g.__dict__ else None)
+
+
+def _edit(g):
+    """a structural edit that fires postprocess_nodes; False when there is nothing to edit"""
+    if not g.nodes:
+        return False
+    g.delete_node(g.nodes[0])
+    return True
+
+
+def _direct_step(convert, x, kind, gc, graph_cls):
+    """one conversion x -> y, then edits: of y (x must not notice, y's own callback must fire on y), of x
+    (y must not notice).  Returns the Coq case, y, facts."""
+    ids = Ids()
+    number_opt(x, ids)
+    pos = positions(x)
+    x_c = cgraph_coq(x, ids, pos, graph_cls, post=post_coq(x, ids, kind))
+    y = convert(x)
+    assert y is not x
+    y_nodes = opt_coq(y, ids, pos)
+    y_gid = ids.of(y, y.operator, y.nodes)
+    y_cls = 0 if type(y) is OptGraph else (1 if type(y) is graph_cls else 2)
+    unchanged = cgraph_coq(x, ids, pos, graph_cls, post=post_coq(x, ids, kind)) == x_c
+    # edit the output
+    sx, sy = _state(x, ids, pos), _state(y, ids, pos)
+    target = N0
+    in_ok = out_ok = True
+    try:
+        edited = _edit(y)
+    except Exception:
+        edited = False
+    if edited:
+        in_ok = _state(x, ids, pos) == sx
+        if kind == 'journal':
+            if x.journal != sx[2]:
+                target = ids.of(x, x.operator, x.nodes)
+            in_ok = in_ok and len(y.journal) == len(sy[2]) + 1
+        elif kind == 'counter':
+            if x.counter.calls != sx[3]:
+                target = ids.of(x.counter)
+            in_ok = in_ok and y.counter.calls == sy[3] + 1
+        # ... and the input
+        sy2 = _state(y, ids, pos)
+        try:
+            if _edit(x):
+                out_ok = _state(y, ids, pos) == sy2
+        except Exception:
+            pass
+    y_c = '(mkC %s %s %s %s)' % (c_nat(y_gid), c_nat(y_cls), post_coq(y, ids, kind, target), y_nodes)
+    case = '(%s, %s, %s, %s, %s, %s)' % (c_nat(gc), c_nat(gc), x_c, y_c, c_bool(in_ok), c_bool(out_ok))
+    return case, y, {'unchanged': unchanged, 'edited': edited, 'in_ok': in_ok, 'out_ok': out_ok}
 
 
 def direct_pipeline(desc, sub):
-    """two single steps: adapt(g) and restore(adapt(g)); sub: DirectAdapter(MyG, MyN) else DirectAdapter()"""
-    ad = DirectAdapter(MyG, MyN) if sub else DirectAdapter()
-    g = build_opt(desc, MyG if sub else OptGraph, MyN if sub else OptNode)
-    out = []
-    ids = Ids()
-    number_opt(g, ids)
-    pos = positions(g)
-    x_c = cgraph_coq(g, ids, pos)
-    a = ad.adapt(g)
-    assert a is not g
-    out.append('(%s, %s, %s, %s)' % (c_nat(0), c_nat(0), x_c, cgraph_coq(a, ids, pos)))
-    unchanged = cgraph_coq(g, ids, pos) == x_c
-    ids2 = Ids()
-    number_opt(a, ids2)
-    x2_c = cgraph_coq(a, ids2, pos)
-    rr = ad.restore(a)
-    dom = 1 if sub else 0
-    # nothing of g either
-    shares_g = ids.of(rr, rr.operator, rr.nodes) < N0 or any(ids.of(nd, nd.content, nd.nodes_from) < N0 for nd in rr.nodes)
-    out.append('(%s, %s, %s, %s)' % (c_nat(dom), c_nat(dom), x2_c, cgraph_coq(rr, ids2, pos)))
-    return out, {'unchanged': unchanged and not shares_g, 'n': len(g.nodes)}
+    """two single steps: adapt(g) and restore(adapt(g)), each followed by edits on both sides.
+    sub: False = DirectAdapter(); True = DirectAdapter(MyG, MyN); 'journal' / 'counter' / 'fun' = domain graph
+    class whose postprocess_nodes is a bound method of the graph / a stateful callable / a plain function"""
+    graph_cls = DOMAIN_CLS.get(sub, OptGraph)
+    ad = DirectAdapter(graph_cls, MyN) if sub else DirectAdapter()
+    kind = sub if isinstance(sub, str) else None
+    g = build_opt(desc, graph_cls, MyN if sub else OptNode)
+    n = len(g.nodes)
+    c1, a, f1 = _direct_step(ad.adapt, g, kind, 0, graph_cls)
+    c2, rr, f2 = _direct_step(ad.restore, a, kind, 1 if sub else 0, graph_cls)
+    return [c1, c2], {'unchanged': f1['unchanged'] and f2['unchanged'], 'n': n, 'edited': f1['edited'] or f2['edited']}
 
 
 IDENT_TY = 'cgraph * cgraph * cgraph'
@@ -674,6 +775,50 @@ class Holder:
         return None
 
 
+import dataclasses  # noqa: E402
+
+
+@dataclasses.dataclass
+class EqOp:
+    """a callable operator with VALUE equality (and therefore unhashable): two instances with equal fields
+    are distinct objects that compare equal"""
+    setting: str
+    rec: list = dataclasses.field(default=None, compare=False, repr=False)
+
+    def __call__(self, *a, **kw):
+        if self.rec is not None:
+            self.rec.append(a[-1] if a else None)
+
+
+class HashEqOp:
+    """the hashable flavour: __eq__ / __hash__ by value, equal instances also hash equally.  (A FROZEN dataclass
+    cannot be registered at all: register_native raises FrozenInstanceError because the native mark is an
+    attribute set on the callable - see docs/C18.md.)"""
+
+    def __init__(self, setting, rec=None):
+        self.setting, self.rec = setting, rec
+
+    def __eq__(self, other):
+        return type(other) is HashEqOp and other.setting == self.setting
+
+    def __hash__(self):
+        return hash(self.setting)
+
+    def __call__(self, *a, **kw):
+        if self.rec is not None:
+            self.rec.append(a[-1] if a else None)
+
+
+NFUN = 9     # 0..4 functions / callable object / lambda, 5 == 6 and 7 == 8 are pairs of equal callable objects
+EQ_PAIRS = [(5, 6), (7, 8)]
+
+
+def equal_objects(rec=None):
+    a, b, c, d = EqOp('x', rec), EqOp('x', rec), HashEqOp('y', rec), HashEqOp('y', rec)
+    assert a == b and a is not b and c == d and c is not d and hash(c) == hash(d)
+    return [a, b, c, d]
+
+
 class CallableObject:
     def __call__(self, *a, **kw):
         return None
@@ -688,7 +833,7 @@ def fresh_functions():
     h = Holder()
     # the function underlying a real bound method, a callable object, a lambda
     return [f0, f1, types.FunctionType(Holder.method.__code__, globals(), 'method_copy'), CallableObject(),
-            (lambda *a: None)], h
+            (lambda *a: None)] + equal_objects(), h
 
 
 def build_term(t, funs, holder):
@@ -697,11 +842,34 @@ def build_term(t, funs, holder):
     inner = build_term(t[1], funs, holder)
     if t[0] == 'p':
         return functools.partial(inner, 1)
-    return types.MethodType(inner, holder)
+    # bound to the plain holder, or to one of two EQUAL holder objects
+    selfs = [holder, _EQ_HOLDERS[0], _EQ_HOLDERS[1]]
+    return types.MethodType(inner, selfs[len(repr(t)) % 3])
+
+
+_EQ_HOLDERS = [EqOp('holder'), EqOp('holder')]
+
+
+def gen_eq_ops(r):
+    """histories about a pair of equal callable objects: one / both / neither registered, in any order,
+    bare or wrapped"""
+    a, b = r.choice(EQ_PAIRS)
+    def w(i):
+        t = ['f', i]
+        for _ in range(r.choice([0, 0, 0, 1, 2])):
+            t = [r.choice(['p', 'm']), t]
+        return t
+    ops = []
+    for _ in range(r.choice([0, 1, 2, 2, 3, 4])):
+        ops.append([r.choice(['reg', 'reg', 'reg', 'unreg']), w(r.choice([a, b]))])
+    return ops, w(r.choice([a, b]))
 
 
 def gen_registry_desc(r):
-    nfun = 5
+    nfun = NFUN
+    if r.random() < 0.3:
+        ops, q = gen_eq_ops(r)
+        return {'ops': ops, 'query': q, 'decorator': r.random() < 0.5}
     ops = []
     for _ in range(r.choice([0, 1, 1, 2, 3, 4])):
         ops.append([r.choice(['reg', 'reg', 'reg', 'unreg']), gen_term(r, nfun)])
@@ -850,15 +1018,18 @@ def recording_functions(rec):
     def f2(x=None, *a, **kw):
         rec.append(a[-1] if a else x)
     h = RecHolder(rec)
-    return [f0, f1, f2, RecCallable(rec), (lambda *a: rec.append(a[-1] if a else None))], h
+    return [f0, f1, f2, RecCallable(rec), (lambda *a: rec.append(a[-1] if a else None))] + equal_objects(rec), h
 
 
 def gen_session_desc(r):
     """steps refer to entries of a table: first the pool terms, then (appended as the session runs) the
     objects handed out by earlier adapt_func / restore_func steps and partials / bound methods of entries;
     an index is taken modulo the current table size, `recent` steps pick among the last entries"""
-    nfun = 5
+    nfun = NFUN
     pool = [gen_term(r, nfun, depth=r.choice([0, 0, 1, 1, 2, 3])) for _ in range(r.choice([1, 2, 3]))]
+    if r.random() < 0.35:      # both members of a pair of equal callable objects, bare and wrapped
+        a, b = r.choice(EQ_PAIRS)
+        pool += [['f', a], ['f', b], [r.choice(['p', 'm']), ['f', r.choice([a, b])]]]
     for t in list(pool)[:2]:
         q = ['f', _underlying(t)]
         for _ in range(r.choice([0, 1, 2])):
@@ -1151,7 +1322,7 @@ def run(ctx):
     cases, metas = [], []
     for i in range(n_dir):
         desc = gen_opt_desc(r, nmax, odd=(i % 4 == 3))
-        sub = (i % 2 == 0)
+        sub = [True, False, 'journal', False, 'counter', True, 'journal', 'fun'][i % 8]
         out = _safe(ctx, 'direct', desc, direct_pipeline, sub)
         if out is None:
             continue
@@ -1163,9 +1334,10 @@ def run(ctx):
     for (desc, sub, step, facts), rr in zip(metas, res):
         case = {'graph': desc, 'domain_subclass': sub, 'step': step}
         ctx.count('direct', key=(desc, sub, step), nontrivial=(facts['n'] >= 2 and any(desc['parents'])), nodes=facts['n'],
-                  step=step, domain_subclass=sub)
+                  step=step, domain_subclass=sub, edited=facts['edited'])
         _flag(ctx, 'direct', case, rr, ['DirectAdapter.%s differs from the model' % step,
-                                        'DirectAdapter.%s loses content / classes or shares objects with its input' % step], 1)
+                                        'DirectAdapter.%s loses content / classes, shares objects with its input, or an edit of one '
+                                        'side (firing postprocess_nodes) changed the other side' % step], 1)
         if not facts['unchanged'] and step == 'adapt':
             ctx.violate('direct', case, 'DirectAdapter modified or re-used its input graph')
     n_id = ctx.budget(100, 2000)
